@@ -304,18 +304,42 @@ fn now_ms() -> u64 {
     std::time::SystemTime::now().duration_since(std::time::UNIX_EPOCH).unwrap().as_millis() as u64
 }
 
-/// A poll that waits for a held decode would never return; this monitor releases every ticket after 500 ms
+static POLLER_TID: std::sync::atomic::AtomicI64 = std::sync::atomic::AtomicI64::new(0);
+/// number of decodes that are still held at the gate when the current poll started
+static HELD_AT_POLL_START: std::sync::atomic::AtomicU64 = std::sync::atomic::AtomicU64::new(0);
+
+/// scheduler state of a thread of this process: 'R' running / runnable, 'S' sleeping (blocked in a wait), ...
+fn thread_state(tid: i64) -> char {
+    std::fs::read_to_string(format!("/proc/self/task/{tid}/stat")).ok().and_then(|s| s.rsplit(')').next().and_then(|r| r.trim().chars().next())).unwrap_or('?')
+}
+
+/// A poll that waits for a held decode would never return; this monitor releases every ticket once the polling thread has been
+/// *sleeping* (blocked, not merely descheduled on a loaded machine) for 150 consecutive samples taken every 20 ms while a decode is still held,
 /// so that the blocked poll comes back and can be reported (instead of losing the worker).
 fn start_poll_monitor() {
     static ONCE: std::sync::Once = std::sync::Once::new();
     ONCE.call_once(|| {
-        std::thread::spawn(|| loop {
-            std::thread::sleep(Duration::from_millis(20));
-            let t = POLL_STARTED_MS.load(std::sync::atomic::Ordering::SeqCst);
-            if t != 0 && now_ms().saturating_sub(t) > 500 {
-                POLL_BLOCKED.store(true, std::sync::atomic::Ordering::SeqCst);
-                for k in 0..16 {
-                    verif_hooks::release(k);
+        std::thread::spawn(|| {
+            let mut sleeping = 0u32;
+            loop {
+                std::thread::sleep(Duration::from_millis(20));
+                let t = POLL_STARTED_MS.load(std::sync::atomic::Ordering::SeqCst);
+                if t == 0 {
+                    sleeping = 0;
+                    continue;
+                }
+                match thread_state(POLLER_TID.load(std::sync::atomic::Ordering::SeqCst)) {
+                    'S' | 'D' => sleeping += 1,
+                    _ => sleeping = 0,
+                }
+                // without a held decode a sleeping poll can only be waiting for the OS thread of a finished decode to exit: that ends by itself.
+                // with a held decode, 3 s of uninterrupted sleep (150 samples) are taken as "waits for the held decode".
+                if sleeping >= 150 && HELD_AT_POLL_START.load(std::sync::atomic::Ordering::SeqCst) > 0 {
+                    POLL_BLOCKED.store(true, std::sync::atomic::Ordering::SeqCst);
+                    for k in 0..16 {
+                        verif_hooks::release(k);
+                    }
+                    sleeping = 0;
                 }
             }
         });
@@ -323,6 +347,19 @@ fn start_poll_monitor() {
 }
 
 fn run_schedule(assign: &[usize], sched: &[Ev], ctx: &mut Ctx) {
+    // The poll monitor releases every ticket when the polling thread has been asleep for 3 s while a decode is held. On a loaded machine that can also
+    // happen while a poll joins a decode that has finished but whose OS thread has not exited yet; such a release invalidates the
+    // schedule without being a violation (no held decode was delivered), so the schedule is run again.
+    for attempt in 0..5 {
+        if run_schedule_once(assign, sched, ctx, attempt == 4) {
+            return;
+        }
+        ctx.count("schedules_rerun_after_a_spurious_monitor_release", 1);
+    }
+}
+
+/// returns false if the run was invalidated by a spurious monitor release (and `last` is false)
+fn run_schedule_once(assign: &[usize], sched: &[Ev], ctx: &mut Ctx, last: bool) -> bool {
     start_poll_monitor();
     POLL_BLOCKED.store(false, std::sync::atomic::Ordering::SeqCst);
     verif_hooks::enable(true);
@@ -336,6 +373,7 @@ fn run_schedule(assign: &[usize], sched: &[Ev], ctx: &mut Ctx) {
     let mut outcome = Fnv::new();
     let mut transitions = 0u64;
     let mut bad: Option<(String, Value)> = None;
+    let mut spurious = false;
 
     let mut events: Vec<Ev> = sched.to_vec();
     events.push(Ev::Poll);
@@ -374,7 +412,7 @@ fn run_schedule(assign: &[usize], sched: &[Ev], ctx: &mut Ctx) {
                             break;
                         }
                     }
-                    if t0.elapsed() > Duration::from_secs(3) {
+                    if t0.elapsed() > Duration::from_secs(120) {
                         bad = Some(("diff:sixel-sched:decode-did-not-finish".into(), json!({"step": step, "image": i})));
                         break;
                     }
@@ -386,6 +424,9 @@ fn run_schedule(assign: &[usize], sched: &[Ev], ctx: &mut Ctx) {
             }
             Ev::Poll => {
                 let t0 = Instant::now();
+                let held_before: Vec<usize> = (0..arrived).filter(|&j| !completed[j]).map(|j| assign[j]).collect();
+                HELD_AT_POLL_START.store(held_before.len() as u64, std::sync::atomic::Ordering::SeqCst);
+                POLLER_TID.store(unsafe { libc::gettid() } as i64, std::sync::atomic::Ordering::SeqCst);
                 POLL_STARTED_MS.store(now_ms(), std::sync::atomic::Ordering::SeqCst);
                 let r = catch(|| buf.update_sixel_threads());
                 POLL_STARTED_MS.store(0, std::sync::atomic::Ordering::SeqCst);
@@ -393,8 +434,14 @@ fn run_schedule(assign: &[usize], sched: &[Ev], ctx: &mut Ctx) {
                 if let Err(p) = r {
                     ctx.panic(&p, json!({"step": step}));
                 }
-                if dt > Duration::from_millis(500) || POLL_BLOCKED.load(std::sync::atomic::Ordering::SeqCst) {
-                    bad = Some(("diff:sixel-sched:poll-blocked".into(), json!({"step": step, "ms": dt.as_millis() as u64})));
+                if POLL_BLOCKED.load(std::sync::atomic::Ordering::SeqCst) {
+                    // blocked on a decode that was still held: the poll came back with that image after the monitor released it
+                    let delivered_held = buf.layers[0].sixels.iter().filter_map(identify).any(|img| held_before.contains(&img));
+                    if delivered_held || last {
+                        bad = Some(("diff:sixel-sched:poll-blocked".into(), json!({"step": step, "ms": dt.as_millis() as u64, "held_decodes_at_poll_start(images)": held_before, "delivered_a_held_decode": delivered_held})));
+                    } else {
+                        spurious = true;
+                    }
                     break;
                 }
                 let m = (0..arrived).take_while(|&j| completed[j]).count();
@@ -436,6 +483,9 @@ fn run_schedule(assign: &[usize], sched: &[Ev], ctx: &mut Ctx) {
     while let Some(h) = buf.sixel_threads.pop_front() {
         let _ = h.join();
     }
+    if spurious {
+        return false;
+    }
     ctx.count("evaluations", 1);
     ctx.count("transitions", transitions);
     ctx.count("nontrivial", 1);
@@ -449,6 +499,7 @@ fn run_schedule(assign: &[usize], sched: &[Ev], ctx: &mut Ctx) {
     if let Some((sig, obs)) = bad {
         ctx.violation(sig, obs);
     }
+    true
 }
 
 // ------------------------------------------------------------------ engine
